@@ -247,12 +247,19 @@ structure Site where
   just : Just
   deriving Repr
 
-/-- the rule of DESIGN.md §7.18: a fold in hash order over a non-integer type can never be
-    justified by a field lemma (float addition is not associative) -/
+/-- a justification is only meaningful for the kind of container it was written for (so that, e.g.,
+    turning the `IntSet` of `add_new_join_paths` into a std `HashSet` invalidates `seedlessHasher`) -/
+def Just.fits : Just → Container → Bool
+  | .unreviewed, _ => false
+  | .seedlessHasher, c => c == .intMap || c == .intSet
+  | .parElementwise, c => c == .rayon
+  | _, c => c == .stdHashMap || c == .stdHashSet
+
+/-- reviewed, the justification fits the container, and — the rule of DESIGN.md §7.18 — no fold in
+    hash / scheduling order over a non-integer type (float addition is not associative; no field
+    lemma can justify it).  The order of a seedless container is not hash-seed order. -/
 def Site.ok (s : Site) : Bool :=
-  s.just != .unreviewed &&
-  (!(s.folds && !s.elemInt) ||
-    -- order of a deterministic (seedless) container is not hash-seed order
-    s.container == .intMap || s.container == .intSet)
+  s.just.fits s.container &&
+  (!(s.folds && !s.elemInt) || s.container == .intMap || s.container == .intSet)
 
 end Altrios.Par
